@@ -37,6 +37,12 @@ def run(ctx):
             w = [ub - lb for lb, ub in zip(sp["lbs"], sp["ubs"])]
             j["warmup"] = {"specs": [{"k": "contMulti", "lbs": [ub + 2 * d for ub, d in zip(sp["ubs"], w)], "ubs": [ub + 3 * d for ub, d in zip(sp["ubs"], w)]}]}
             j["kind"] = j["kind"] + "+reused-instance"
+    # a tenth of the runs use an objective that overwrites its argument after reading it (scratch-space objectives): what is reported must be what the library
+    # corrected, not what user code left in a list it was handed
+    for j in ctx.rng.sample(js, len(js) // 10):
+        if not j.get("warmup") and not j.get("derive_from"):
+            j["scribble"] = True
+            j["kind"] = j["kind"] + "+argument-overwriting-objective"
     # every optimizer once under a pool of processes (a branch of its own in the shared combinators, and in any algorithm that pools by itself), on a task with
     # integer-coded coordinates where the pair runs today, otherwise on a narrow continuous box where proposals leave the space all the time
     pj = jobs.make_jobs(ctx.rng, names, ["mixed", "disc", "cont-tiny"], 1 if not ctx.thorough else 3, modes=("process",), max_cycles_choices=(2, 3), trace_events=False)
